@@ -20,9 +20,14 @@ PROP = "C15"
 def llm_fn(task, prompt, i):
     t = str(task)
     d = rw.digest(prompt)
+    if "same opening" in prompt:
+        # conversations of the set `same-texts-different-options` must have identical texts: the reply only depends on the last user text
+        d = rw.digest(prompt.rsplit("same opening", 1)[-1][-40:])
     if "generate_user_intent" in t:
         if "look it up" in prompt.rsplit('user "', 1)[-1]:
             return "  request lookup"
+        if "good morning" in prompt.rsplit('user "', 1)[-1]:
+            return "  say good morning"
         return "  ask"
     if "generate_next_step" in t:
         return "  bot inform capabilities"
@@ -51,7 +56,23 @@ def _remember_action():
     return verif_remember
 
 
+VARMSG_COLANG = """
+define user say good morning
+  "good morning"
+
+define bot greet by name
+  "Good morning $name, nice to see you!"
+
+define flow morning
+  user say good morning
+  bot greet by name
+"""
+
+
 def build(dialog):
+    if dialog == "varmsg":
+        # a predefined bot message that uses a context variable which only some conversations supply
+        return World(rw.V1_DIALOG + VARMSG_COLANG, "rails:\n  dialog:\n    single_call:\n      enabled: False\n")
     if dialog == "mutating":
         # an input rail whose action keeps a list in the context and changes it in place (conversation data that lives
         # in the events of the conversation only)
@@ -79,8 +100,11 @@ def run_request(world, history, step):
         msgs = history + [{"role": "user", "content": step[1]}]
     else:
         msgs = [dict(m) for m in step[1]]
-    turn = rw.run_turn(world, msgs, {}, llm_fn)
+    extra = step[2] if len(step) > 2 else {}
+    turn = rw.run_turn(world, msgs, dict(extra.get("verdicts", {})), llm_fn, options=extra.get("options"))
     reply = turn.reply if isinstance(turn.reply, dict) else {"role": "assistant", "content": str(turn.text)}
+    if step[0] == "hist" and msgs and msgs[0].get("role") == "context":
+        pass
     obs = (turn.text, tuple(c["prompt"] for c in turn.llm_calls), repr(turn.exc) if turn.exc else None,
            tuple((a.get("rail") or a.get("action"), a.get("text")) for a in turn.actions))
     return msgs + [reply], obs
@@ -133,6 +157,15 @@ def conv_sets(dialog):
     N = Conv("N", [("nat", "look it up n1"), ("nat", "look it up n2")])
     O = Conv("O", [("nat", "look it up o1"), ("nat", "hello")])
     sets.append(("action-parameters-from-context", [N, O]))
+    # 8. the same predefined message, one conversation supplies the variable it uses, the other does not
+    P = Conv("P", [("nat", "good morning"), ("nat", "good morning")])
+    Q = Conv("Q", [("hist", [{"role": "context", "content": {"name": "Ann"}}, {"role": "user", "content": "good morning"}])])
+    R = Conv("R", [("hist", [{"role": "context", "content": {"name": "Bob"}}, {"role": "user", "content": "good morning"}])])
+    sets.append(("predefined-message-with-a-variable", [P, Q, R]))
+    # 9. identical opening texts, different per-request options / verdicts (the second turn of S must be blocked whatever T selected)
+    S = Conv("S", [("nat", "same opening"), ("nat", "forbidden question", {"verdicts": {"in1": "R"}})])
+    T = Conv("T", [("nat", "same opening", {"options": {"rails": {"input": False}}}), ("nat", "forbidden question", {"options": {"rails": {"input": False}}, "verdicts": {"in1": "R"}})])
+    sets.append(("same-texts-different-options", [S, T]))
     return sets
 
 
@@ -366,7 +399,7 @@ def run(rep, tier):
     import vf.engines.world  # noqa
 
     n_sets = len(conv_sets(False))
-    ts = [(d, i) for d in (False, True, "rails", "mutating") for i in range(n_sets)]
+    ts = [(d, i) for d in (False, True, "rails", "mutating") for i in range(n_sets)] + [("varmsg", 7), ("varmsg", 3)]
     agg = {}
     for r in par.pmap(explore, ts):
         for k, v in r.items():
